@@ -318,6 +318,43 @@ namespace c11
     return rest;
   }
 
+
+  // ---------------------------------------------------------------------------------------------- adaption by the charts
+  struct AdaptResult { Kind kind = K_UNKNOWN; std::string what, canon_before, canon_after, written_after; int mesh_type = -1, shape_type = -1, shape_dim = -1, world_dim = -1; };
+
+  /// parse, then RootMeshNode::adapt() (every mesh part that is linked to a chart is projected onto it), dump before / after
+  template<typename Mesh_>
+  void parse_adapt_typed(const std::string& text, AdaptResult& out)
+  {
+    std::istringstream iss(text);
+    MeshFileReader reader(iss);
+    reader.read_root_markup();
+    out.mesh_type = int(reader.get_mesh_type()); out.shape_type = int(reader.get_shape_type());
+    out.shape_dim = reader.get_shape_dim(); out.world_dim = reader.get_world_dim();
+    MeshAtlas<Mesh_> atlas;
+    RootMeshNode<Mesh_> node(nullptr, &atlas);
+    PartitionSet ps;
+    reader.parse(node, atlas, &ps);
+    out.canon_before = canon(node, atlas, ps);
+    node.adapt();
+    out.canon_after = canon(node, atlas, ps);
+    std::ostringstream os; { MeshFileWriter w(os); w.write(&node, &atlas, &ps); }
+    out.written_after = os.str();
+  }
+
+  inline AdaptResult parse_adapt(const std::string& text, const std::string& type)
+  {
+    AdaptResult out;
+    out.kind = classify([&]{
+      if(type == "conformal:hypercube:1:1") parse_adapt_typed<MeshH1>(text, out);
+      else if(type == "conformal:hypercube:2:2") parse_adapt_typed<MeshH2>(text, out);
+      else if(type == "conformal:hypercube:3:3") parse_adapt_typed<MeshH3>(text, out);
+      else if(type == "conformal:simplex:2:2") parse_adapt_typed<MeshS2>(text, out);
+      else parse_adapt_typed<MeshS3>(text, out);
+    }, out.what);
+    return out;
+  }
+
   // ---------------------------------------------------------------------------------------------- property map
   inline std::string pm_canon(const PropertyMap& pm, int depth = 0)
   {
